@@ -13,7 +13,7 @@ import (
 )
 
 func TestWorker(t *testing.T) {
-	base := Config{MinSteps: 12, MaxSteps: 90, EPIC: true}
+	base := Config{MinSteps: 20, MaxSteps: 130, EPIC: true}
 	with := func(f func(c *Config)) core.RunFunc {
 		c := base
 		f(&c)
@@ -39,8 +39,8 @@ func TestWorker(t *testing.T) {
 			c.Prop, c.JudgeC25, c.Policies, c.VerifierCache, c.Faults, c.Tamper, c.SignerWindows, c.ClockJumps = "C25", true, true, true, true, true, true, true
 		}),
 		"C26/select": with(func(c *Config) {
-			c.Prop, c.JudgeC26, c.AllowK1, c.Policies = "C26", true, true, true
-			c.MinSteps, c.MaxSteps = 25, 140
+			c.Prop, c.JudgeC26, c.AllowK1, c.Rich = "C26", true, true, true
+			c.MinSteps, c.MaxSteps = 40, 160
 		}),
 	}})
 }
